@@ -315,7 +315,16 @@ def write_replay(pid, payload):
     return p
 
 
-def write_evidence(pid, tier, seed, coverage, assumptions, wall, violations):
+def write_evidence(pid, tier, seed, coverage, assumptions, wall, violations, debug=False):
+    """evidence/<pid>.json records a full check of /repo itself; debugging runs (--no-proof, another tree through
+    VERIF_REPO) leave that file alone and write to work/evidence_debug/ instead"""
+    evid = EVID
+    if debug or os.path.realpath(REPO) != '/repo':
+        evid = os.path.join(VERIF, 'work', 'evidence_debug')
+    _write_evidence(evid, pid, tier, seed, coverage, assumptions, wall, violations)
+
+
+def _write_evidence(EVID, pid, tier, seed, coverage, assumptions, wall, violations):
     os.makedirs(EVID, exist_ok=True)
     ev = {
         'property_id': pid, 'tier': tier, 'seed': int(seed), 'level': 'proof',
